@@ -620,6 +620,8 @@ func (x *Exec) convert(fr *Frame, st *State, v Value, T types.Type, pos token.Po
 		st.assume(Quant("forall", []*Term{i}, Implies(BVCmp("bvult", i, ln), Eq(Select(arr, i), Apply("str.at", SBV(8), v.L[0], i))), Select(arr, i)))
 		c := x.comp(st, "arr:uint8", types.Typ[types.Uint8], 0)
 		x.setComp(st, "arr:uint8", types.Typ[types.Uint8], 0, Store(c, out.L[0], arr))
+		// round trip: string([]byte(s)) == s (strings have no extensionality axiom of their own)
+		st.assume(Eq(Apply("str.of", SStr, arr, BVLit64(0, 64), ln), v.L[0]))
 		return out
 	case isString(T) && isInteger(v.T):
 		return x.freshValue(st, "runestr", T)
@@ -892,6 +894,19 @@ func (x *Exec) mapComp(st *State, mf mapFam, which string, j int) (*Term, string
 	t := x.c.Named(pref+key, s)
 	st.heap[key] = t
 	x.rawSorts[key] = s
+	if which == "val" && !x.inInit && x.heapPrefix == "" {
+		// heap well-formedness for references stored in maps (as heapWF for object fields): a reference held
+		// by a map that exists at entry denotes an object that exists at entry
+		if l := x.c.leaves(mf.V)[j]; (l.Kind == 'r' || l.Kind == 'p') && l.Dims == 0 && !x.axiomSeen["wf:"+t.Name] {
+			x.axiomSeen["wf:"+t.Name] = true
+			x.qcount++
+			m := Var("m!wf"+itoa(x.qcount), SInt)
+			k := Var("k!wf"+itoa(x.qcount), mf.ks)
+			e := Select(Select(t, m), k)
+			a0 := x.c.Named("alloc0", SInt)
+			x.extraAxioms = append(x.extraAxioms, Quant("forall", []*Term{m, k}, Implies(IntCmp("<=", m, a0), IntCmp("<=", e, a0)), e))
+		}
+	}
 	return t, key
 }
 
